@@ -32,11 +32,11 @@ LANG_NOTE = ("Trusts the two reference interpreters written for this purpose (vf
              "CB-1..CB-9 / B09-1..B09-9 listed in DESIGN.md section 3; constructs whose BASIC09 behaviour is uncertain (U-1..U-7) are never "
              "generated. Number formatting is abstract (README documents that it differs). ")
 claim("C01",
-      "differential PBT: Hypothesis-generated typed expression trees in six statement contexts, Color BASIC reference interpreter on the AST vs BASIC09 reference interpreter on convert() output",
+      "differential PBT: Hypothesis-generated typed expression trees in six statement contexts + complete enumeration of small operator trees (also with negated leaves) + long flat chains, Color BASIC reference interpreter on the AST vs BASIC09 reference interpreter on convert() output; a refused program of the fragment is a violation",
       "Generated-input search over expression shapes (depth <= 4), literal spellings, initial values and statement contexts; the oracle compares every printed variable/element value and the branch taken. Five recorded defects are replayed as witnesses and steered around by construction.",
       LANG_NOTE, "DESIGN.md section 6, C01")
 claim("C02",
-      "differential PBT: Hypothesis-generated structurally terminating control-flow programs, event-trace comparison between the Color BASIC and BASIC09 reference interpreters under all four option sets",
+      "differential PBT: Hypothesis-generated structurally terminating control-flow programs + complete enumeration of ON..GOTO/GOSUB lists x selector values, event-trace comparison between the Color BASIC and BASIC09 reference interpreters under all four option sets",
       "Generated-input search over nested blocks of IF/ELSE/ELSE-IF, FOR/NEXT (STEP, bare NEXT, NEXT lists), GOTO/GOSUB/ON, END/STOP; the oracle compares the full sequence of observable events and the way the run ends, and requires the translation to stop when the source stops.",
       LANG_NOTE, "DESIGN.md section 6, C02")
 
